@@ -233,13 +233,18 @@ def run(ctx, only_exports=False):
                                            "fails": fails})
     for rec, fails in rrej:
         ctx.violation("real-geometry " + key_of(rec, fails),
-                      {"record": {"id": rec["id"], "D": rec["D"], "seed": rec["seed"], "kind": "random"}, "fails": fails})
+                      {"record": {"id": rec["id"], "D": rec["D"], "seed": rec["seed"],
+                                  "kind": "combine" if rec["id"].startswith("combine/") else "random"}, "fails": fails})
 
 
 def replay(ctx, rec):
     r = rec["detail"]["record"]
     _init(ctx.workdir)
-    if r.get("kind") == "random":
+    if r.get("kind") == "combine":
+        rrecs, rrej = region_random.run(ctx, 1, validate, combine_seeds=[r["seed"]])
+        for rr, fails in rrej:
+            ctx.violation("real-geometry " + key_of(rr, fails), {"record": r, "fails": fails})
+    elif r.get("kind") == "random":
         rrecs, rrej = region_random.run(ctx, 1, validate, seeds=[r["seed"]])
         for rr, fails in rrej:
             ctx.violation("real-geometry " + key_of(rr, fails), {"record": r, "fails": fails})
